@@ -33,6 +33,7 @@ FLAGS = {
     "C07-arg-index-from-name": "argIndexFromName",
     "C07-subs-sequential": "subsSequential",
     "C07-rename-sequential": "renameSequential",
+    "C07-compress-sequential": "compressSequential",
     "C07-oraclize-renames-callee": "oraclizeRenames",
 }
 
